@@ -137,6 +137,19 @@ def vsys_suite(name, pred, quick, thorough, length=50, extra=None):
     }
 
 
+def vsplit_suite(name, pred, quick, thorough, length=50):
+    """cron / volatile pipeline at sub-call granularity: cron edits land between the Peek and the Pop that one
+    volatileTaskRepo.MarkAsDispatched issues (model VSplit.v = VSys.v + label XSplitMark)"""
+    su = vsys_suite(name, pred, quick, thorough, length, ["--split-edit"])
+    su["header"] = "From GK Require Import VSplit SysCheck.\nOpen Scope string_scope.\nOpen Scope list_scope.\nOpen Scope Z_scope."
+    su["hist_type"] = "xcase"
+    su["eval"] = ("Definition M := Eval vm_compute in xsys_mismatches scfg_current cases 0.\nPrint M.\n"
+                  "Definition V := Eval vm_compute in xtrace_violations %s cases 0.\nPrint V." % pred)
+    su["diag"] = "Eval vm_compute in match nth_error cases {k} with Some x => Some (xsys_expect scfg_current x {i}) | None => None end."
+    su["show"] = "Eval vm_compute in match nth_error cases {k} with Some x => xc_trace x | None => [] end."
+    return su
+
+
 def sys_pred_suite(name, pred, quick, thorough, length=60, extra=None):
     """pipeline runs for which there is no model (fault placement below the observable wrapper): only the trace
     predicate - which is model-independent - is evaluated; M is empty by construction"""
@@ -266,7 +279,11 @@ SUITES = {
                        # the same pipeline over the ent/SQLite repository (it follows the same monitor: the pipeline only uses
                        # what both repositories agree on)
                        sys_suite("c03-sys-ent", "c03_ok", {"n": 25, "shards": 3}, {"n": 100, "shards": 16}, extra=["--impl", "ent", "--faults"]),
-                       vsys_suite("c03-vsys", "vc03_ok", {"n": 25, "shards": 4}, {"n": 60, "shards": 16})]},
+                       vsys_suite("c03-vsys", "vc03_ok", {"n": 25, "shards": 4}, {"n": 60, "shards": 16}),
+                       # finer than the call boundaries of scheduler.Repository: a cron edit (removing a random entry, often
+                       # the head's) lands between the Peek and the Pop that one volatileTaskRepo.MarkAsDispatched issues;
+                       # held to VSplit.v (VSys.v + the label XSplitMark)
+                       vsplit_suite("c03-vsys-split", "vc03_ok", {"n": 25, "shards": 3}, {"n": 60, "shards": 16})]},
     "C04": {"gen_obligations": ["src:ent-guarded-update"], "suites": [sys_suite("c04-sys", "c04_ok", {"n": 25, "shards": 8}, {"n": 200, "shards": 16}),
                        sys_suite("c04-sys-faults", "c04_ok", {"n": 25, "shards": 6}, {"n": 150, "shards": 16}, extra=["--faults"]),
                        sys_suite("c04-sys-corefaults", "c04_ok", {"n": 25, "shards": 3}, {"n": 100, "shards": 16}, extra=["--faults", "--core-faults"]),
